@@ -186,6 +186,10 @@ const WEIRD: &[&str] = &[
     "snake_case",
     "with.dot",
     "semi;colon",
+    "back\\slash",
+    "the \"fast\" solver",
+    "tab\there",
+    "q'uote",
 ];
 
 /// A different name that becomes equal to `name` once ' ', '-', '/' are replaced by '_'
@@ -243,9 +247,42 @@ pub fn gen_funnel(rng: &mut StdRng) -> Prog {
             ops.push(Op::Add { r: rr, w: ww, deps: vec![], t, name: if rng.gen_bool(0.2) { String::new() } else { format!("f{}", k) } });
             k += 1;
         }
+        // systems that depend on members of the (possibly full) groups and are otherwise compatible
+        let named: Vec<String> = ops
+            .iter()
+            .filter_map(|o| match o {
+                Op::Add { name, .. } if !name.is_empty() => Some(name.clone()),
+                _ => None,
+            })
+            .collect();
+        for _ in 0..rng.gen_range(0..=3) {
+            if named.is_empty() {
+                break;
+            }
+            let mut deps = vec![named.choose(rng).unwrap().clone()];
+            if rng.gen_bool(0.3) {
+                deps.push(named.choose(rng).unwrap().clone());
+            }
+            ops.push(Op::Add { r: vec![], w: vec![], deps, t: *[1u8, 3, 5].choose(rng).unwrap(), name: format!("d{}", k) });
+            k += 1;
+        }
         if rng.gen_bool(0.3) {
             ops.push(Op::Barrier);
         }
+    }
+    Prog { ops }
+}
+
+/// Very many stages: a chain of systems each closed by a barrier.
+pub fn gen_chain(rng: &mut StdRng) -> Prog {
+    let n = rng.gen_range(250..=330);
+    let mut ops = Vec::new();
+    for i in 0..n {
+        ops.push(Op::Add { r: vec![], w: vec![], deps: vec![], t: 3, name: format!("c{}", i) });
+        ops.push(Op::Barrier);
+    }
+    for i in 0..rng.gen_range(1..=4) {
+        ops.push(Op::Add { r: vec![], w: vec![], deps: vec![], t: 3, name: format!("last{}", i) });
     }
     Prog { ops }
 }
@@ -356,7 +393,9 @@ pub fn gen_prog(rng: &mut StdRng, cfg: &GenCfg, depth: usize, prefix: &str) -> P
             let mut icfg = cfg.clone();
             icfg.n_min = 1;
             icfg.n_max = (cfg.n_max / 3).max(2).min(8);
-            let inner = gen_prog(rng, &icfg, depth + 1, &format!("{}b{}.", prefix, k));
+            // (inner builders have their own name space: now and then the same names as outside)
+            let iprefix = if rng.gen_bool(0.25) { prefix.to_string() } else { format!("{}b{}.", prefix, k) };
+            let inner = gen_prog(rng, &icfg, depth + 1, &iprefix);
             ops.push(Op::Batch {
                 ctl: rng.gen_range(0..4),
                 n: *[0usize, 1, 1, 2, 3].choose(rng).unwrap(),
@@ -459,6 +498,15 @@ impl Variant {
             seed: rng.gen(),
         }
     }
+    /// Renaming may differ per builder (name spaces of different builders are unrelated).
+    pub fn rename_in(&self, name: &str, builder: usize) -> String {
+        let base = self.rename_of(name);
+        if !self.rename || name.is_empty() || self.rename_salt % 2 == 0 {
+            return base;
+        }
+        format!("{}@{}", base, builder)
+    }
+
     pub fn rename_of(&self, name: &str) -> String {
         if !self.rename || name.is_empty() {
             return name.to_string();
